@@ -22,9 +22,11 @@ RULE = ("metamorphic on the real code (model-free verdict: image of the program 
         "(2) files: abstract programs of 1-3 linked files + include files (depth <= 3) made of '.word .+k', .byte, .blkb, .even, insert_file (0-300 "
         "bytes), .include, .end/end, .once; transformations concat-linked-files, insert->.byte (empty insert -> nothing), cut-after-.end in a main / "
         "linked / included file, include-a-.once-file 1-3 times -> once, paste-included-file; both programs through Model/Structure in Coq. "
-        "(2b) '.once' under path spellings, on REAL files in a scratch directory (path handling goes through os.path): a '.once' file included 2-3 "
-        "times, directly or through a nested include resolved relative to the including file, each time under another spelling of its path "
-        "(lib.mac, ./lib.mac, sub/../lib.mac, absolute normalised, absolute with /./, // or /sub/../) = the program with only the first inclusion. "
+        "(2b) '.once' by every route, on REAL files in a scratch directory (path handling goes through os.path): a '.once' file reached 2-3 times "
+        "by any mix of: given as a linked file (before / after main / listed twice), '.include'd directly, inside a '.repeat', or through a nested "
+        "include resolved relative to the including file, under different spellings of its path (lib.mac, ./lib.mac, sub/../lib.mac, absolute "
+        "normalised, absolute with /./, // or /sub/../) = the program with every occurrence after the first deleted; the same routes (linked, "
+        "listed twice, included by a linked file, nested) on abstract programs through Model/Structure (transformation once-routes). "
         "(2c) 2-3 linked files with disjoint private names that reference each other's exported symbols (name::, name == v, .extern name before / "
         "after the definition, .extern all; labels and constants; either link order), the reference and the '.extern' operand spelled in another "
         "letter case than the definition in 60% of the cases, 15% with a case-variant duplicate export (must fail in both forms) = the concatenation. "
@@ -46,7 +48,7 @@ LEVEL_NOTE = ("TreeCache is a value-level model (final integer addresses): with 
               "Symbol scoping is outside both models (same env on both sides = the hypothesis 'no reference to an enclosing local label / no shared "
               "private names'); that side is covered by the metamorphic sweep on rich programs.  '%expr' registers are unmodelled (explicit Crash). "
               "Known finding: '.end' inside a '.repeat' body (hypothesis no_end_in_body; refutation of the full statement in Props/C16_findings.v). "
-              "Print Assumptions: closed under the global context for all 20 theorems.")
+              "Print Assumptions: closed under the global context for all 23 theorems.")
 TECHNIQUE = "Coq proof about hand-written executable models + model/implementation correspondence in coqc + metamorphic search oracle on the real code"
 ASSUME = ["pdpy11's parser maps the generated text to the token tree that is handed to the model (the tree is taken from the parser itself)",
           "symbols used in a '.repeat' body resolve to the same definitions in the unrolled text (no enclosing local labels referenced)",
@@ -404,6 +406,72 @@ def transform_sprog(rng, want):
         for pos in sorted(extra, reverse=True):
             p.files[main] = p.files[main][:pos] + [("inc", g)] + p.files[main][pos:]
         return f"once-x{k}", p, q
+    if want == "onceroutes":
+        # every way a file can be reached: given as a linked file (also twice), '.include'd by a linked file,
+        # '.include'd by a file that a linked file includes.  Occurrence j lives in link slot j, so the first
+        # one in compilation order is the one in the lowest slot; the reference keeps only that one.
+        g = inc_ids[0]
+        for fid in list(p.files):
+            p.files[fid] = [st for st in p.files[fid] if st != ("inc", g)]
+        p.files[g] = [("once",)] + [st for st in p.files[g] if st[0] != "inc"]
+        k = r.choice([2, 2, 3])
+        slots = []                       # (route, linked fid or None, carrier fid or None)
+        linked = list(p.ids)
+        new_ids = []
+        routes = [r.choice(["linked", "inc", "nested"]) for _ in range(k)]
+        if "linked" not in routes or r.random() < 0.3:
+            routes[r.randrange(k)] = "linked"
+        nxt = 30
+        pool = list(linked)
+        for j, route in enumerate(routes):
+            if route == "linked":
+                new_ids.append(g)
+                slots.append(("linked", None, None))
+            else:
+                if pool:
+                    lf = pool.pop(0)
+                else:
+                    lf = nxt
+                    nxt += 1
+                    p.files[lf] = [("byte", [r.randrange(256), r.randrange(256)])]
+                new_ids.append(lf)
+                if route == "inc":
+                    pos = r.randrange(len(p.files[lf]) + 1)
+                    p.files[lf] = p.files[lf][:pos] + [("inc", g)] + p.files[lf][pos:]
+                    slots.append(("inc", lf, lf))
+                else:
+                    h = nxt
+                    nxt += 1
+                    p.files[h] = [("byte", [r.randrange(256), r.randrange(256)]), ("inc", g), ("even",)]
+                    pos = r.randrange(len(p.files[lf]) + 1)
+                    p.files[lf] = p.files[lf][:pos] + [("inc", h)] + p.files[lf][pos:]
+                    slots.append(("nested", lf, h))
+        new_ids += pool
+        p.ids = new_ids
+        if p.ids[0] == g:
+            p.base = None                # a '.link' line must not sit before the '.once' of a file compiled twice
+        q = p.clone()
+        first = True
+        drop_linked = 0
+        for route, lf, carrier in slots:
+            if first:
+                first = False
+                continue
+            if route == "linked":
+                drop_linked += 1
+            else:
+                q.files[carrier] = [st for st in q.files[carrier] if st != ("inc", g)]
+        if drop_linked:
+            keep_first_linked = slots[0][0] == "linked"
+            out, seen = [], 0
+            for fid in q.ids:
+                if fid == g:
+                    seen += 1
+                    if not (keep_first_linked and seen == 1):
+                        continue
+                out.append(fid)
+            q.ids = out
+        return "once-routes:" + "+".join(rt for rt, _, _ in slots), p, q
     if want == "oncefirst":
         # the first compilation of a '.once' file contributes everything: same as without the '.once'
         g = r.choice([inc_ids[0], p.ids[0], p.ids[-1]])
@@ -430,7 +498,7 @@ def transform_sprog(rng, want):
 
 
 def structure_family(rep, rng, n_cases, with_model=True):
-    wants = ["concat", "insert", "end", "once", "paste", "oncefirst"]
+    wants = ["concat", "insert", "end", "once", "paste", "oncefirst", "onceroutes"]
     items = []
     for i in range(n_cases):
         t = transform_sprog(rng, wants[i % len(wants)])
@@ -718,7 +786,11 @@ LIB_SPELLINGS = ["lib.mac", "./lib.mac", "sub/../lib.mac", ROOT + "/lib.mac", RO
 
 
 def path_case(rng):
-    """-> (kind, real files {relpath: template}, main template, reference main template)"""
+    """-> (kind, real files {relpath: template}, linked files of the program, linked files of the reference)
+    The '.once' file lib.mac is reached 2-3 times, by any mix of routes: given as a linked file (before and / or
+    after main, by its absolute normalised path -- linked files are named as typed), '.include'd from main under
+    some spelling of its path, '.include'd inside a '.repeat', or through a nested include resolved relative to
+    the including file.  Reference: the program with every occurrence after the first one deleted."""
     r = rng
     lib = ".once\nlibfn: mov #%s, r0\n.word ., libfn\n" % oct(r.randrange(1, 200))[2:]
     files = {"lib.mac": lib,
@@ -727,36 +799,64 @@ def path_case(rng):
              "sub/deep/inner2.mac": "inc r4\n.include \"../../sub/../lib.mac\"\n",
              "sub/deep/inner2_nolib.mac": "inc r4\n"}
     k = r.choice([2, 2, 3])
+    want_linked = r.random() < 0.5
+    before = after = 0
+    if want_linked:
+        c = r.randrange(4)
+        before, after = [(1, 0), (0, 1), (1, 1), (1, 0)][c]
+    n_inc = max(0, k - before - after)
+    if before + after + n_inc < 2:
+        n_inc = 2 - before - after
     uses = []
-    for i in range(k):
+    for i in range(n_inc):
         c = r.random()
-        if c < 0.2:
+        if c < 0.18:
             uses.append(("nested", "sub/inner.mac", "sub/inner_nolib.mac"))
-        elif c < 0.3:
+        elif c < 0.27:
             uses.append(("nested", "sub/deep/inner2.mac", "sub/deep/inner2_nolib.mac"))
-        elif c < 0.4:
+        elif c < 0.36:
             uses.append(("nested", ROOT + "/sub/./inner.mac", "sub/inner_nolib.mac"))
+        elif c < 0.5:
+            uses.append(("repeat", r.choice(LIB_SPELLINGS), None))
         else:
             uses.append(("direct", r.choice(LIB_SPELLINGS), None))
-    if all(u[1] == uses[0][1] for u in uses) and uses[0][0] == "direct":
+    if not want_linked and len(uses) >= 2 and all(u[1] == uses[0][1] for u in uses) and uses[0][0] == "direct":
         uses[-1] = ("direct", r.choice([x for x in LIB_SPELLINGS if x != uses[0][1]]), None)
     main, ref = [], []
-    if r.random() < 0.5:
+    if not before and r.random() < 0.5:
         main.append(".link %s" % oct(r.choice([0o1000, 0o2000, 0o40000]))[2:])
         ref.append(main[-1])
+    seen = bool(before)                  # has lib.mac been compiled already?
     for i, (how, path, nolib) in enumerate(uses):
         filler = "clr r%d" % (i % 4)
-        main += [filler, '.include "%s"' % path]
+        main.append(filler)
         ref.append(filler)
-        if i == 0:
-            ref.append('.include "%s"' % path)
-        elif how == "nested":
-            ref.append('.include "%s"' % nolib)
+        if how == "repeat":
+            n = r.choice([2, 3])
+            main += [".repeat %d {" % n, '    .include "%s"' % path, "    inc r2", "}"]
+            if seen:
+                ref += ["inc r2"] * n
+            else:
+                ref += ['.include "%s"' % path] + ["inc r2"] * n
+        else:
+            main.append('.include "%s"' % path)
+            if not seen:
+                ref.append('.include "%s"' % path)
+            elif how == "nested":
+                ref.append('.include "%s"' % nolib)
+        seen = True
     main.append("halt")
     ref.append("halt")
-    kind = "once-paths:" + "+".join(("abs" if u[1].startswith(ROOT) else "rel") + ("-nested" if u[0] == "nested" else "")
-                                   + ("-unnormalised" if u[1].startswith(ROOT) and ("/./" in u[1] or "//" in u[1] or "/../" in u[1]) else "") for u in uses)
-    return kind, files, "\n".join(main) + "\n", "\n".join(ref) + "\n"
+    main_t, ref_t = "\n".join(main) + "\n", "\n".join(ref) + "\n"
+    lib_linked = (ROOT + "/lib.mac", lib)
+    prog = [lib_linked] * before + [(ROOT + "/main.mac", main_t)] + [lib_linked] * after
+    reference = [lib_linked] * before + [(ROOT + "/main.mac", ref_t)] + ([lib_linked] if (after and not before and not uses) else [])
+    tags = ["linked-before"] * before
+    for u in uses:
+        tags.append(("abs" if u[1].startswith(ROOT) else "rel") + {"nested": "-nested", "repeat": "-in-repeat", "direct": ""}[u[0]]
+                    + ("-unnormalised" if u[1].startswith(ROOT) and ("/./" in u[1] or "//" in u[1] or "/../" in u[1]) else ""))
+    tags += ["linked-after"] * after
+    return "once-paths:" + "+".join(tags), files, prog, reference
 
 
 def materialise(root, files):
@@ -777,31 +877,33 @@ def paths_family(rep, rng, n_cases):
     try:
         items, pairs = [], []
         for i in range(n_cases):
-            kind, files, main, ref = path_case(rng)
+            kind, files, prog, ref = path_case(rng)
             d = os.path.join(root, "c%d" % i)
             materialise(d, files)
-            items.append((kind, files, main, ref, d))
-            pairs.append(([(d + "/main.mac", main.replace(ROOT, d))], [(d + "/main.mac", ref.replace(ROOT, d))], None))
+            items.append((kind, files, prog, ref, d))
+            pairs.append(([(fn.replace(ROOT, d), t.replace(ROOT, d)) for fn, t in prog],
+                          [(fn.replace(ROOT, d), t.replace(ROOT, d)) for fn, t in ref], None))
         outs = run_pairs(pairs)
-        for (kind, files, main, ref, d), (a, b) in zip(items, outs):
+        for (kind, files, prog, ref, d), (a, b) in zip(items, outs):
             rep.add_eval(2)
             rep.count("files:" + kind.split(":")[0] + ":" + a["outcome"])
             spell = kind.split(":")[1].split("+")
-            rep.count("paths:includes=%d" % len(spell))
-            for tag in ("abs", "rel"):
+            rep.count("paths:occurrences=%d" % len(spell))
+            for tag in ("abs", "rel", "linked"):
                 if any(x.startswith(tag) for x in spell):
                     rep.count("paths:has-" + tag)
-            for tag in ("nested", "unnormalised"):
+            for tag in ("nested", "unnormalised", "in-repeat", "linked-before", "linked-after"):
                 if any(tag in x for x in spell):
                     rep.count("paths:has-" + tag)
-            rep.nontrivial(("paths", digest(main, files["lib.mac"])))
+            rep.nontrivial(("paths", digest(*[t for _, t in prog], files["lib.mac"])))
             if view(a) != view(b):
-                rep.violate("once-paths:" + digest(main), "a '.once' file included again under another spelling of its path contributed again",
-                            {"files": [["{ROOT}/main.mac", main]], "files_transformed": [["{ROOT}/main.mac", ref]], "real_files": files,
+                rep.violate("once-paths:" + digest(*[fn + t for fn, t in prog]),
+                            "a '.once' file reached a second time (linked, listed twice, included, included in a repeat, another spelling of its path) contributed again",
+                            {"files": [list(x) for x in prog], "files_transformed": [list(x) for x in ref], "real_files": files,
                              "transformation": kind, "note": "{ROOT} = a scratch directory holding real_files"},
                             impl=brief(a), impl_transformed=brief(b))
         if items:
-            rep.sample({"once_paths_program": items[0][2], "reference": items[0][3], "impl": brief(outs[0][0])})
+            rep.sample({"once_paths_program": [list(x) for x in items[0][2]], "reference": [list(x) for x in items[0][3]], "impl": brief(outs[0][0])})
     finally:
         shutil.rmtree(root, ignore_errors=True)
         try:
@@ -825,7 +927,7 @@ def explore(rep, br, tier, seed):
         structure_family(rep, rng, 210 if quick else 4200, with_model=True)
     except RuntimeError as ex:
         err = err or ex
-    paths_family(rep, rng, 60 if quick else 600)
+    paths_family(rep, rng, 80 if quick else 800)
     exports_family(rep, rng, 120 if quick else 1500)
     rich_family(rep, rng, 60 if quick else 1200)
     probe_dot_assign(rep)
